@@ -11,6 +11,7 @@ from ..prng import sub
 from . import c01
 
 ID = "C02"
+PROBES = ['sites_created', 'readbacks']  # reach probes: counters that must be non-zero in a run (a zero is printed and recorded)
 LEVEL = "exploration"
 BUDGET = {"quick": 1500, "thorough": 60000}
 WALL = {"quick": 240, "thorough": 3000}
